@@ -13,6 +13,7 @@ const IMAX: usize = isize::MAX as usize;
 const EXT: [usize; 6] = [IMAX - 1, IMAX, IMAX + 1, usize::MAX - 8, usize::MAX - 1, usize::MAX];
 
 static HEARTBEAT: AtomicU64 = AtomicU64::new(0);
+static THOROUGH: std::sync::atomic::AtomicBool = std::sync::atomic::AtomicBool::new(false);
 static CUR: [AtomicU64; 4] = [AtomicU64::new(0), AtomicU64::new(0), AtomicU64::new(0), AtomicU64::new(0)];
 static CUR_NAME: std::sync::Mutex<&'static str> = std::sync::Mutex::new("");
 
@@ -51,6 +52,24 @@ fn addr_set(l: &Layout) -> Vec<u64> {
             s.insert(st.wrapping_add(d as u64));
             s.insert(st.wrapping_add(*n).wrapping_add(d as u64));
         }
+        if THOROUGH.load(Ordering::Relaxed) {
+            for d in -9i64..=9 {
+                s.insert(st.wrapping_add(d as u64));
+                s.insert(st.wrapping_add(*n).wrapping_add(d as u64));
+                s.insert(st.wrapping_add(*n / 2).wrapping_add(d as u64));
+            }
+        }
+    }
+    if THOROUGH.load(Ordering::Relaxed) {
+        for sh in [12u32, 16, 31, 33, 47, 48, 62] {
+            for d in [-1i64, 0, 1] {
+                s.insert(((1u128 << sh) as i128 + d as i128) as u64);
+            }
+        }
+        for d in 0..40 {
+            s.insert(u64::MAX - d);
+            s.insert(d);
+        }
     }
     s.into_iter().collect()
 }
@@ -67,6 +86,22 @@ fn count_set(lens: &[usize]) -> Vec<usize> {
     }
     for e in EXT {
         s.insert(e);
+    }
+    if THOROUGH.load(Ordering::Relaxed) {
+        // every small value, every value around a page, and more overflow-prone values
+        s.extend(0..=40usize);
+        s.extend(4086..=4106usize);
+        for sh in [16u32, 31, 32, 33, 47, 48, 62, 63] {
+            for d in [-1i64, 0, 1] {
+                s.insert(((1u128 << sh) as i128 + d as i128) as usize);
+            }
+        }
+        for l in lens {
+            for k in 2..=9usize {
+                s.insert(l / k);
+                s.insert(usize::MAX - l / k);
+            }
+        }
     }
     s.into_iter().collect()
 }
@@ -366,6 +401,7 @@ pub fn run(tier: Tier, replay: Option<String>) -> i32 {
     if ctx.replay_of.is_some() {
         println!("replay: deterministic enumeration; re-running it");
     }
+    THOROUGH.store(tier.thorough(), Ordering::Relaxed);
     // watchdog: no heartbeat for 20 s while the sweep is running = a call that does not return
     let done = std::sync::Arc::new(std::sync::atomic::AtomicBool::new(false));
     {
@@ -404,6 +440,11 @@ pub fn run(tier: Tier, replay: Option<String>) -> i32 {
         layouts.push(("mmap", Layout { regs: vec![(0, size), ((1 << 32) - 1, size), (u64::MAX - size, size)] }, false));
         layouts.push(("mock", Layout { regs: vec![(0, size), ((1 << 63) - 1, size), (u64::MAX - size + 1, size)] }, true));
         layouts.push(("mmap", Layout { regs: vec![(1, size), (1 + size, size)] }, false));
+    }
+    if tier.thorough() {
+        layouts.push(("mmap", Layout { regs: vec![(0x1000, 4096), (0x2000, 1), (0x2001, 4095), (0x4000, 8192)] }, false));
+        layouts.push(("mock", Layout { regs: vec![(0, 1), (1, 1), (u64::MAX - 1, 1), (u64::MAX, 1)] }, true));
+        layouts.push(("mmap", Layout { regs: vec![(u64::MAX - 8192, 4096), (u64::MAX - 4096, 4096)] }, false));
     }
     for (imp, l, mock) in &layouts {
         if *mock {
